@@ -33,26 +33,29 @@ def isNumOrStr : FieldDecl → Bool
   | _ => false
 
 mutual
-/-- `Field.serialize(value)` (the base-class default) -/
-def fDefault : PyVal → R PyVal
+/-- `Field.serialize(value)` (the base-class default).  `JK` lists the enum classes whose members
+    are themselves `int` / `float` / `str` instances (IntEnum, IntFlag, `class E(str, Enum)`, …):
+    the `isinstance(value, (int, float, str, bool))` test returns such a member unchanged, a plain
+    member goes to `json.dumps` and raises TypeError. -/
+def fDefault (JK : List String) : PyVal → R PyVal
   | .none => .ok .none
   | .bool b => .ok (.bool b)
   | .int i => .ok (.int i)
   | .float q => .ok (.float q)
   | .str s => .ok (.str s)
-  | .list xs => bindE (fDefaultList xs) fun ys => .ok (.list ys)
+  | .list xs => bindE (fDefaultList JK xs) fun ys => .ok (.list ys)
   | .tuple _ => .error (.other "outside-model:json-dumps")
   | .dict _ => .error (.other "outside-model:json-dumps")
   | .dec _ => .error .typeErr
   | .set _ _ => .error .typeErr
   | .deque _ => .error .typeErr
-  | .enumv _ _ => .error .typeErr
+  | .enumv c n => if JK.contains c then .ok (.enumv c n) else .error .typeErr   -- a mixin member is an int / float / str
   | .inst _ _ => .error .typeErr
   | .opaque _ => .error .typeErr
 termination_by structural v => v
-def fDefaultList : List PyVal → R (List PyVal)
+def fDefaultList (JK : List String) : List PyVal → R (List PyVal)
   | [] => .ok []
-  | x :: xs => bindE (fDefault x) fun y => bindE (fDefaultList xs) fun ys => .ok (y :: ys)
+  | x :: xs => bindE (fDefault JK x) fun y => bindE (fDefaultList JK xs) fun ys => .ok (y :: ys)
 termination_by structural xs => xs
 end
 
@@ -107,11 +110,11 @@ def attrsOf : PyVal → List (String × PyVal)
 
 mutual
 /-- `field.serialize(value)` -/
-def fser (Mp : MapEnv) (NF : List String) : FieldDecl → PyVal → R PyVal
-  | .number _, v => fDefault v
-  | .integer _, v => fDefault v
-  | .float _, v => fDefault v
-  | .string _ _ _, v => fDefault v
+def fser (Mp : MapEnv) (NF JK : List String) : FieldDecl → PyVal → R PyVal
+  | .number _, v => fDefault JK v
+  | .integer _, v => fDefault JK v
+  | .float _, v => fDefault JK v
+  | .string _ _ _, v => fDefault JK v
   | .boolean, v => .ok v
   | .noneF, _ => .ok .none
   | .enumLit _, v => .ok v
@@ -119,85 +122,85 @@ def fser (Mp : MapEnv) (NF : List String) : FieldDecl → PyVal → R PyVal
   | .seqOf .list item _, v =>
     if isNumOrStr item then fList (fun xs => .ok xs) v       -- `list(value)`: a copy, same elements
     else if nonFastRef NF item then fList lateLookup v     -- `item_class.serialize(x)`, looked up per element
-    else fList (mapE (fser Mp NF item)) v
-  | .seqOf .deque item _, v => fList (mapE (fser Mp NF item)) v
-  | .seqPos .list items _ _, v => fList (fserZipRaw Mp NF items) v    -- surplus elements: `deepcopy(x)`
-  | .seqPos .deque items _ _, v => fList (fserZip Mp NF items) v
+    else fList (mapE (fser Mp NF JK item)) v
+  | .seqOf .deque item _, v => fList (mapE (fser Mp NF JK item)) v
+  | .seqPos .list items _ _, v => fList (fserZipRaw Mp NF JK items) v    -- surplus elements: `deepcopy(x)`
+  | .seqPos .deque items _ _, v => fList (fserZip Mp NF JK items) v
   | .seqAny _ _, v => fList (fun xs => .ok xs) v              -- `deepcopy(list(value))`
   | .setOf _ item _, v =>
     if nonFastRef NF item then fList lateLookup v
-    else fList (mapE (fser Mp NF item)) v
+    else fList (mapE (fser Mp NF JK item)) v
   | .setAny _ _, v => fList (fun xs => .ok xs) v
-  | .tupleOf item _, v => fList (mapE (fser Mp NF item)) v       -- `Tuple[X]`: all elements through X
-  | .tuplePos items _, v => fList (fserZip Mp NF items) v
+  | .tupleOf item _, v => fList (mapE (fser Mp NF JK item)) v       -- `Tuple[X]`: all elements through X
+  | .tuplePos items _, v => fList (fserZip Mp NF JK items) v
   | .mapOf kf vf _, v =>
     fMap (mapE (fun (kv : PyVal × PyVal) =>
-      bindE (fser Mp NF kf kv.1) fun k' => bindE (fser Mp NF vf kv.2) fun v' => .ok (k', v'))) v
+      bindE (fser Mp NF JK kf kv.1) fun k' => bindE (fser Mp NF JK vf kv.2) fun v' => .ok (k', v'))) v
   | .mapAny _, v => (match v with | .dict kvs => .ok (.dict kvs) | _ => .error .typeErr)  -- `deepcopy(dict(value))`
   | .struct c fields defaults, v =>
     if c.inline then
       -- StructureReference.serialize: every field, unset ones included (None)
-      bindE (fInline Mp NF defaults (attrsOf v) fields) fun r => .ok (.dict r)
+      bindE (fInline Mp NF JK defaults (attrsOf v) fields) fun r => .ok (.dict r)
     else if NF.contains c.name then .error .typeErr        -- `getattr(cls, "serialize", None)(value)`
     else (match v with
       | .inst _ attrs =>
-        bindE (fFields Mp NF false (Mp c.name) defaults attrs fields) fun r =>
+        bindE (fFields Mp NF JK false (Mp c.name) defaults attrs fields) fun r =>
           .ok (.dict (keyDedupe (Mp c.name) r))
       | _ => .error (.other "AttributeError"))
-  | .anyOf fs, v => if v.isNone then .ok .none else fserLast Mp NF fs v
-  | .allOf fs, v => fserHead Mp NF fs v
-  | .notF fs, v => fserHead Mp NF fs v
+  | .anyOf fs, v => if v.isNone then .ok .none else fserLast Mp NF JK fs v
+  | .allOf fs, v => fserHead Mp NF JK fs v
+  | .notF fs, v => fserHead Mp NF JK fs v
   | .oneOf _, _ => .error .typeErr
-  | .anything, v => fDefault v
+  | .anything, v => fDefault JK v
 termination_by structural f _ => f
 
 /-- `[items[i].serialize(x) for i, x in enumerate(value)]` -/
-def fserZip (Mp : MapEnv) (NF : List String) : List FieldDecl → List PyVal → R (List PyVal)
+def fserZip (Mp : MapEnv) (NF JK : List String) : List FieldDecl → List PyVal → R (List PyVal)
   | _, [] => .ok []
   | [], _ :: _ => .error (.other "IndexError")
   | f :: fs, x :: xs =>
-    bindE (fser Mp NF f x) fun y => bindE (fserZip Mp NF fs xs) fun ys => .ok (y :: ys)
+    bindE (fser Mp NF JK f x) fun y => bindE (fserZip Mp NF JK fs xs) fun ys => .ok (y :: ys)
 termination_by structural fs _ => fs
 
 /-- Array.serialize with positional items: elements beyond the item fields are passed through -/
-def fserZipRaw (Mp : MapEnv) (NF : List String) : List FieldDecl → List PyVal → R (List PyVal)
+def fserZipRaw (Mp : MapEnv) (NF JK : List String) : List FieldDecl → List PyVal → R (List PyVal)
   | _, [] => .ok []
   | [], x :: xs => .ok (x :: xs)
   | f :: fs, x :: xs =>
-    bindE (fser Mp NF f x) fun y => bindE (fserZipRaw Mp NF fs xs) fun ys => .ok (y :: ys)
+    bindE (fser Mp NF JK f x) fun y => bindE (fserZipRaw Mp NF JK fs xs) fun ys => .ok (y :: ys)
 termination_by structural fs _ => fs
 
 /-- `AnyOf.serialize`: through `_not_nonefield`, the LAST option that is not `NoneField` -/
-def fserLast (Mp : MapEnv) (NF : List String) : List FieldDecl → PyVal → R PyVal
+def fserLast (Mp : MapEnv) (NF JK : List String) : List FieldDecl → PyVal → R PyVal
   | [], _ => .error (.other "AttributeError")
-  | f :: rest, v => if rest.all isNoneF && !isNoneF f then fser Mp NF f v else fserLast Mp NF rest v
+  | f :: rest, v => if rest.all isNoneF && !isNoneF f then fser Mp NF JK f v else fserLast Mp NF JK rest v
 termination_by structural fs _ => fs
 
 /-- `MultiFieldWrapper.serialize`: through the first option -/
-def fserHead (Mp : MapEnv) (NF : List String) : List FieldDecl → PyVal → R PyVal
+def fserHead (Mp : MapEnv) (NF JK : List String) : List FieldDecl → PyVal → R PyVal
   | [], _ => .error (.other "IndexError")
-  | f :: _, v => fser Mp NF f v
+  | f :: _, v => fser Mp NF JK f v
 termination_by structural fs _ => fs
 
 /-- `StructureReference.serialize` -/
-def fInline (Mp : MapEnv) (NF : List String) (defaults attrs : List (String × PyVal)) :
+def fInline (Mp : MapEnv) (NF JK : List String) (defaults attrs : List (String × PyVal)) :
     List (String × FieldDecl) → R (List (PyVal × PyVal))
   | [] => .ok []
   | (n, f) :: rest =>
-    bindE (fser Mp NF f (getAttr defaults attrs n)) fun j =>
-    bindE (fInline Mp NF defaults attrs rest) fun r => .ok ((PyVal.str n, j) :: r)
+    bindE (fser Mp NF JK f (getAttr defaults attrs n)) fun j =>
+    bindE (fInline Mp NF JK defaults attrs rest) fun r => .ok ((PyVal.str n, j) :: r)
 termination_by structural fs => fs
 
 /-- the serializer `create_serializer` installs: one getter per field, in field order; None
     results are dropped unless `serialize_none` -/
-def fFields (Mp : MapEnv) (NF : List String) (sn : Bool) (m : TMapper)
+def fFields (Mp : MapEnv) (NF JK : List String) (sn : Bool) (m : TMapper)
     (defaults attrs : List (String × PyVal)) : List (String × FieldDecl) → R (List (PyVal × PyVal))
   | [] => .ok []
   | (n, f) :: rest =>
     bindE (if isNSB f then .ok (getAttr defaults attrs n)
            else if (getAttr defaults attrs n).isNone then .ok .none
-           else fser Mp NF f (getAttr defaults attrs n)) fun j =>
-    bindE (fFields Mp NF sn m defaults attrs rest) fun r =>
+           else fser Mp NF JK f (getAttr defaults attrs n)) fun j =>
+    bindE (fFields Mp NF JK sn m defaults attrs rest) fun r =>
       .ok (if j.isNone && !sn then r else (PyVal.str (mapKey m n), j) :: r)
 termination_by structural fs => fs
 end
@@ -258,11 +261,11 @@ def createOk (Mp : MapEnv) (NF : List String) (cls : FieldDecl) : Bool :=
   | _ => false
 
 /-- `x.serialize()` of an instance of a class whose serializer was created with the given flags -/
-def fastSerialize (Mp : MapEnv) (NF : List String) (sn compact : Bool) (cls : FieldDecl)
+def fastSerialize (Mp : MapEnv) (NF JK : List String) (sn compact : Bool) (cls : FieldDecl)
     (x : PyVal) : R PyVal :=
   match cls with
   | .struct c fields defaults =>
-    bindE (bindE (fFields Mp NF sn (Mp c.name) defaults (attrsOf x) fields) fun r =>
+    bindE (bindE (fFields Mp NF JK sn (Mp c.name) defaults (attrsOf x) fields) fun r =>
             .ok (keyDedupe (Mp c.name) r)) fun r =>
       if compact && fields.length == 1 && r.length == 1 then
         (match r with | kv :: _ => .ok kv.2 | [] => .ok (.dict r))
